@@ -451,6 +451,11 @@ def msgtext_in_model(text):
         u = tok.upper()
         if _re.fullmatch(r"[A-Z][A-Z0-9_-]*", u) and not _re.fullmatch(r"TYPE\d+", u) and not _mt_type_ok(u):
             return False              # a type the library implements and RdTextM has no schema for
+    if "\\" in t and _re.search(r"\sLOC\s", t, _re.I):
+        # LOC passes unescaped token text to float(), which accepts what no other field does (escaped
+        # white space around the number, '1_0', 'nan' spellings ...): C05's loc_meters models the
+        # plain spellings only
+        return False
     if "\\#" in t:
         # generic syntax: only for types that are generic for the library too (for a known type
         # dns.rdata.from_text goes through the wire codec, which this instance does not have)
